@@ -30,10 +30,16 @@ Finish == /\ stage = 1 /\ kind = "script" /\ stage' = 2 /\ UNCHANGED <<kind, scr
                /\ EmitCase("var.script", P, [script |-> script, srcs |-> srcs, tgts |-> tgts])
                /\ (~Leaks(script) => LET p == Strictify(f')  k == Len(f'.sources) IN
                      EmitCase("var.forget_eval", P, [f |-> f', inputs |-> <<X1(k), X2(k)>>]))
-LoadTerm == /\ stage = 1 /\ kind = "forget" /\ stage' = 2 /\ UNCHANGED <<kind, script, nv>>
-            /\ \E d \in Diagrams(N, E, A, I, NL, {0, 5}) : f' = PlainToLax(d)
-                 /\ EmitCase("var.forget", P, [f |-> PlainToLax(d)]) /\ EmitCase("var.forget_monogamous", P, [f |-> PlainToLax(d)])
-Next == Start \/ AddStep \/ Finish \/ LoadTerm
+\* forgetting: node labels, then hyperedges, then interfaces (staged, so that TLC's workers share the work)
+LoadW == /\ stage = 1 /\ kind = "forget" /\ stage' = 3 /\ UNCHANGED <<kind, script, nv>>
+         /\ \E n \in 0 .. N : \E w \in SeqsOfLen(NL, n) : f' = PlainToLax(OH(w, <<>>, <<>>, <<>>))
+LoadE == /\ stage = 3 /\ stage' = 4 /\ UNCHANGED <<kind, script, nv>>
+         /\ \E e \in SeqsUpTo(EdgesOver(LN(f), A, {0, 5}), E) : f' = PlainToLax(OH(f.nodes, e, <<>>, <<>>))
+LoadTerm == /\ stage = 4 /\ stage' = 2 /\ UNCHANGED <<kind, script, nv>>
+            /\ \E s \in SeqsUpTo(Range0(LN(f)), I), t \in SeqsUpTo(Range0(LN(f)), I) :
+                 LET d == [f EXCEPT !.sources = s, !.targets = t] IN
+                 f' = d /\ EmitCase("var.forget", P, [f |-> d]) /\ EmitCase("var.forget_monogamous", P, [f |-> d])
+Next == Start \/ AddStep \/ Finish \/ LoadW \/ LoadE \/ LoadTerm
 Spec == Init /\ [][Next]_vars
 
 NonVarEdges(st) == Cardinality({i \in 1 .. LE(st) : st.edges[i] # VarLabel})
